@@ -71,9 +71,19 @@ func (r *yieldRewriter) rewriteRanges(block *ast.BlockStmt) {
 				case ty.Info()&types.IsInteger != 0:
 					// >= 1.22 only, but no release, need test
 					x := n.X
-					if tv, ok := r.pkg.TypeInfo().Types[n.X]; ok && tv.Value != nil {
+					ignoreKey, _ := r.ignoreKeyVal(n.Key, n.Value)
+					if tv, ok := r.pkg.TypeInfo().Types[n.X]; ok && tv.Value != nil && n.Tok == token.ASSIGN && !ignoreKey {
 						// a constant bound takes the type of the iteration variable,
 						// e.g. var i uint8; for i = range 3
+						if key, _ := n.Key.(*ast.Ident); key != nil {
+							// typed by example, the type of the variable needn't be spelled
+							// (generic, unexported, not imported here or shadowed types, rune consts)
+							iter := X.Call(r.SeqSelect(cstNewIntegerIterOf), key, n.X)
+							init, forStmt := r.rewriteRangeToForIter(n, iter)
+							c.InsertBefore(init)
+							c.Replace(forStmt)
+							return true
+						}
 						switch t := tv.Type.(type) {
 						case *types.Basic:
 							if t.Kind() != types.Int && t.Info()&types.IsUntyped == 0 {
